@@ -122,6 +122,13 @@ def frame_meta(writes):
     return dict(inductive=True) if ws and all(x.startswith('cache store') for x in ws) else {}
 
 
+def need_seq(v, what):
+    """a series the property speaks about element-wise must be a list the executor can index generically; another representation is
+    `cannot analyse` (exit 3), never a refuted obligation"""
+    if not isinstance(v, Seq): raise Unsupported("%s is not an element-wise indexable list in the executor (%s)" % (what, type(v).__name__))
+    return v
+
+
 def returns(paths): return [p for p in paths if p.outcome == 'return']
 def raises(paths): return [p for p in paths if p.outcome == 'raise']
 
